@@ -79,6 +79,35 @@ Theorem mask_stage_keeps_size : forall q x i x' i', mask_stage q x i = ROk (x', 
 Proof. exact mask_stage_len. Qed.
 Print Assumptions mask_stage_keeps_size.
 
+(** J's [postprocessing_only_cuts] for EVERY postprocessing configuration over the TokenMasking table (by induction over the
+    nested configuration): the result is never an Err — the loader never drops an item in the postprocessing —, info and
+    data come back unchanged, the variant is kept, and no sequence gets longer (ClipLength shortens, TokenMasking keeps
+    every length): the size the batcher sees can only shrink *)
+Theorem postprocessing_never_drops_or_grows : forall qs maxlen c, qrefs_ok (length qs) c = true ->
+  forall x i, post_rel2 x i (postproc (qopq_tab qs) maxlen c x i).
+Proof. exact postproc_rel2. Qed.
+Print Assumptions postprocessing_never_drops_or_grows.
+
+(** the premise is met: TokenMasking (entry 0 of [ex_qs] below) followed by ClipLength with max_length 4 on six token ids *)
+Example postprocessing_example :
+  qrefs_ok 1 (QChain [QOpaque 0; QClip]) = true /\
+  exists ids, postproc (qopq_tab [mk_qs {| b_off := 256; b_sv := [[60;117;110;107;62]]%N; b_pre := []; b_suf := []; b_pad := 256%N |}
+                                        (Fin 4503599627370496 (-53)) 1 FInf [60;117;110;107;62]%N])
+                       4 (QChain [QOpaque 0; QClip])
+                       (mk_xitem (mk_item [] []) (TIGen [99;99;99;99;99;99]%N 256%N [1;2;3;4;5;6]%Z)) (mk_info 7 0 [])
+              = ROk (mk_xitem (mk_item [] []) (TIGen ids 256%N [1;2;3;4]%Z), mk_info 7 0 []) /\ length ids = 4.
+Proof. split; [reflexivity|]. eexists. split; vm_compute; reflexivity. Qed.
+
+(** the masking loop is TOTAL: with min_tokens >= 1 (the constructor's assertion) and at least two maskable tokens every
+    round makes progress, so with fuel > nm - i the loop can only answer "fuel" when the SAMPLER does (the only loop left
+    on fuel is the sampler's, RNG_GeometricProps.geo_sample_fuel_irrelevant) *)
+Theorem mask_loop_never_out_of_fuel : forall fuel g p' mn nm npfx mid i ids st,
+  (1 <= mn)%N -> 2 <= nm -> nm - i < fuel ->
+  mask_loop fuel g p' mn nm npfx mid i ids st = MkFuel ->
+  exists st', geo_sample geo_fuel g st' = GSFuel.
+Proof. exact mask_loop_total. Qed.
+Print Assumptions mask_loop_never_out_of_fuel.
+
 (** A KNOWN ANSWER OF THE REAL CRATES (harness, line -7): byte tokenizer with suffix <eos> <pad>, p = the binary64 value
     just below 2/3 (the Bringmann–Friedrich branch, k = 1), min_tokens 1, num_tokens_prob +inf, mask token "\0" (id 0),
     22 token ids, seed 48176 *)
